@@ -476,7 +476,42 @@ func runR27(c *Ctx) {
 		b, ok := v.Type().Underlying().(*types.Basic)
 		return ok && b.Info()&types.IsString != 0
 	}
-	isConst := func(v ssa.Value) bool { _, ok := v.(*ssa.Const); return ok }
+	// a compile-time constant, a choice between constants (phi), or the result of a module function all of
+	// whose returns are such (infString(neg) = "-Inf" / "+Inf")
+	var isConstD func(v ssa.Value, d int) bool
+	isConstD = func(v ssa.Value, d int) bool {
+		if d > 4 {
+			return false
+		}
+		switch t := v.(type) {
+		case *ssa.Const:
+			return true
+		case *ssa.Phi:
+			for _, e := range t.Edges {
+				if !isConstD(e, d+1) {
+					return false
+				}
+			}
+			return len(t.Edges) > 0
+		case *ssa.Call:
+			g := t.Call.StaticCallee()
+			if g == nil || g.Blocks == nil || g.Pkg == nil || !inModule(g.Pkg.Pkg) {
+				return false
+			}
+			okAll, n := true, 0
+			eachInstr(g, func(in ssa.Instruction) {
+				if r, ok := in.(*ssa.Return); ok {
+					n++
+					if len(r.Results) != 1 || !isConstD(r.Results[0], d+1) {
+						okAll = false
+					}
+				}
+			})
+			return okAll && n > 0
+		}
+		return false
+	}
+	isConst := func(v ssa.Value) bool { return isConstD(v, 0) }
 	for _, fn := range fns {
 		fnm := fname(fn)
 		n := 0
